@@ -724,6 +724,80 @@ def render_instance(ist: dict, cl: dict[str, dict]) -> str:
     return "\n".join(out)
 
 
+# ------------------------------------------------------------------ every iteration in the functions that produce
+# cache records / processing orders: sorted, ordered origin, order-insensitive fold, or a listed exception
+
+ITER_FUNCS = {
+    "mypy/build.py": ["write_deps_cache", "deps_to_json", "invert_deps", "transitive_dep_hash",
+                      "State.patch_indirect_dependencies", "State.suppressed_deps_opts", "find_stale_sccs", "State.write_cache",
+                      "State.dependency_priorities", "State.dependency_lines", "order_ascc", "order_ascc_ex",
+                      "sorted_components", "sorted_components_inner", "deps_filtered"],
+    "mypy/graph_utils.py": ["prepare_sccs"],
+    "mypy/nodes.py": ["SymbolTable.write", "SymbolTable.serialize"],
+    "mypy/server/deps.py": ["merge_dependencies"],
+    "mypy/typestate.py": ["TypeState.update_protocol_deps", "TypeState._snapshot_protocol_deps"],
+}
+
+
+def iteration_sites() -> list[tuple[str, bool]]:
+    """(site id, iterable is syntactically a sorted(...) value) for every for-loop / comprehension of ITER_FUNCS."""
+    out: dict[str, bool] = {}
+    for rel, fs in ITER_FUNCS.items():
+        tree = ast.parse(vlib.read_repo(rel))
+        for q in fs:
+            f = find_func(tree, q)
+            sorted_names: dict[str, bool] = {}
+            for x in ast.walk(f):
+                if isinstance(x, ast.Assign) and len(x.targets) == 1 and isinstance(x.targets[0], ast.Name):
+                    nm = x.targets[0].id
+                    sorted_names[nm] = sorted_names.get(nm, True) and is_sorted_call(x.value)
+            for x in ast.walk(f):
+                its: list[ast.AST] = []
+                if isinstance(x, ast.For):
+                    its = [x.iter]
+                elif isinstance(x, (ast.ListComp, ast.SetComp, ast.DictComp, ast.GeneratorExp)):
+                    its = [g.iter for g in x.generators]
+                for it in its:
+                    is_s = is_sorted_call(it) or (isinstance(it, ast.Name) and sorted_names.get(it.id, False))
+                    sid = f"{rel}:{q}: " + " ".join(ast.unparse(it).split())[:100]
+                    out[sid] = out.get(sid, True) and is_s
+    return sorted(out.items())
+
+
+def load_iter_classification() -> dict[str, dict]:
+    try:
+        return json.load(open(CLASS_JSON)).get("iteration_sites", {})
+    except FileNotFoundError:
+        return {}
+
+
+ITER_CLASSES = {"sorted": "ISorted", "ordered_origin": "IOrderedOrigin", "order_insensitive": "IOrderInsensitive", "exception": "IException"}
+
+
+def render_iter(sites: list[tuple[str, bool]], cl: dict[str, dict]) -> str:
+    out = ["(* GENERATED by tools/extractors/t10.py (iteration sites of the functions that produce cache records and"
+           " processing orders) and tools/harness/globals_class.json (section iteration_sites) -- do not edit *)",
+           "From Coq Require Import List String Bool.", "Import ListNotations.", "Open Scope string_scope.", "",
+           "Inductive itclass := ISorted | IOrderedOrigin | IOrderInsensitive | IException.", "",
+           "(* (site, the iterable is syntactically sorted(...) or a name only ever bound to sorted(...)) *)",
+           "Definition iteration_sites : list (string * bool) := ["]
+    out.append(";\n".join(f"  ({coq_str(n)}, {'true' if b else 'false'})" for n, b in sites))
+    out.append("].\n\nDefinition iteration_classification : list (string * itclass) := [")
+    rows = []
+    for k, v in cl.items():
+        c = ITER_CLASSES.get(v.get("class", ""))
+        if c is None:
+            raise Unsupported(f"globals_class.json iteration_sites: {k}: unknown class {v.get('class')!r}")
+        if c != "ISorted" and not v.get("reason"):
+            raise Unsupported(f"globals_class.json iteration_sites: {k}: class {v['class']} needs a reason")
+        rows.append(f"  ({coq_str(k)}, {c})")
+    out.append(";\n".join(rows))
+    out.append("].\n\n(* sites classified `exception` = known findings *)\nDefinition iteration_exceptions : list string := [")
+    out.append(";\n".join("  " + coq_str(k) for k, v in cl.items() if v.get("class") == "exception"))
+    out.append("].\n")
+    return "\n".join(out)
+
+
 def coq_str(s: str) -> str:
     return '"' + s.replace('"', '""') + '"'
 
@@ -801,7 +875,9 @@ def generate() -> dict[str, str]:
     vlib.write_if_changed(os.path.join(vlib.GEN, "SortedSites.v"), st)
     it = render_instance(instance_state(), load_instance_classification())
     vlib.write_if_changed(os.path.join(vlib.GEN, "InstanceState.v"), it)
-    return {"Globals.v": txt, "SortedSites.v": st, "InstanceState.v": it}
+    its = render_iter(iteration_sites(), load_iter_classification())
+    vlib.write_if_changed(os.path.join(vlib.GEN, "IterSites.v"), its)
+    return {"Globals.v": txt, "SortedSites.v": st, "InstanceState.v": it, "IterSites.v": its}
 
 
 if __name__ == "__main__":
